@@ -151,6 +151,10 @@ var opKinds = map[string]opInfo{
 	"cred_err":      {2, true},
 	"dead_tok":      {2, true}, // revoked access / refresh tokens
 	"es_err":        {2, true},
+	// verifications on ONE shared verifier object of each kind (verifiers_test.go; twin run)
+	"jp_verify":   {5, true}, // op.VerifyJWTAssertion: assertions of different clients on one op.JWTProfileVerifier (storage-backed / key set)
+	"at_verify":   {2, true}, // op.VerifyAccessToken on one op.AccessTokenVerifier
+	"hint_verify": {2, true}, // op.VerifyIDTokenHint on one op.IDTokenHintVerifier
 	"code_shared":   {3, false},
 	"refresh_vol":   {2, false},
 	"revoke":        {2, false},
@@ -164,7 +168,7 @@ var opKinds = map[string]opInfo{
 	"rs_introspect":  {3, true},
 	"rsjwt_introsp":  {1, true},
 	"te_exchange":    {2, true},
-	"rp_cc":          {2, true},
+	"rp_cc":          {4, true},
 	"rp_device":      {2, true},
 	"rp_authurl":     {2, true},
 	"rp_handler":     {3, true},
@@ -179,12 +183,12 @@ var opKinds = map[string]opInfo{
 // kinds that need nothing prepared: usable in a cold case
 var coldKinds = map[string]bool{"disc": true, "keys": true, "flow": true, "cc": true, "bearer": true, "devflow": true, "bad": true, "authorize_err": true, "profile_token": true,
 	"cb_notdone": true, "cb_unknown": true, "az_err": true, "az_noredirect": true, "tok_err": true, "cred_err": true, "es_err": true,
-	"devauth": true, "xdisc": true, "xtoken": true}
+	"devauth": true, "xdisc": true, "xtoken": true, "jp_verify": true}
 
 // rapid prefers the low indexes of a SampledFrom list: the kinds that contend for client-side state come first
 var kindOrder = []string{
-	"rp_handler", "rp_handler_err", "rp_flow", "devauth", "xdisc", "xtoken", "rp_endsession", "rp_revoke", "cb_notdone", "az_err", "discover_redir", "rp_verify", "ks_verify", "poll_approved", "flow", "rp_userinfo",
-	"te_exchange", "rs_introspect", "rsjwt_introsp", "profile_token", "rp_device", "rp_cc", "rp_refresh_vol", "rp_authurl",
+	"rp_handler", "rp_handler_err", "rp_flow", "devauth", "xdisc", "xtoken", "jp_verify", "rp_cc", "rp_endsession", "rp_revoke", "cb_notdone", "az_err", "discover_redir", "at_verify", "hint_verify", "rp_verify", "ks_verify", "poll_approved", "flow", "rp_userinfo",
+	"te_exchange", "rs_introspect", "rsjwt_introsp", "profile_token", "rp_device", "rp_refresh_vol", "rp_authurl",
 	"devflow", "cc", "bearer", "te", "disc", "keys", "userinfo", "introspect", "code_shared", "refresh_vol", "revoke", "endsession",
 	"userinfo_vol", "poll_pending", "poll_denied", "bad", "authorize_err", "tok_err", "cred_err", "dead_tok", "es_err", "cb_unknown", "az_noredirect",
 }
@@ -296,6 +300,17 @@ type env struct {
 	te     tokenexchange.TokenExchanger
 	ks     oidc.KeySet
 	src    profile.TokenSource
+	// rpKey: a second relying party, registered with a key (rp.WithJWTProfile) and without PKCE; it shares e.hc and the
+	// argument pool with e.rp
+	rpKey rp.RelyingParty
+	// args: the long-lived argument objects of the application (args_test.go), handed to the helpers by every goroutine
+	args  *callerArgs
+	args0 snapshot
+	// ONE verifier object of each kind, shared by the goroutines (verifiers_test.go)
+	jpv, jpvKS *op.JWTProfileVerifier
+	atv        *op.AccessTokenVerifier
+	hintv      *op.IDTokenHintVerifier
+	jwtATs     []jwtAT // JWT access tokens of different clients / subjects
 
 	web, native, svc *vkit.ClientSpec
 
@@ -324,11 +339,15 @@ func conClients(c Case) []*vkit.ClientSpec {
 		{ID: "native", AppType: "native", AuthMethod: "none", GrantTypes: []string{vkit.GCode, vkit.GRefr, vkit.GDevice},
 			ResponseTypes: []string{"code"}, RedirectURIs: []string{"http://localhost/cb"}},
 		{ID: "api", Secret: "api-secret", AppType: "web", AuthMethod: "client_secret_basic"},
-		{ID: "apijwt", AppType: "web", AuthMethod: "private_key_jwt", Keys: map[string]string{"kapi": "rsa3"}},
+		{ID: "apijwt", AppType: "web", AuthMethod: "private_key_jwt", Keys: map[string]string{"kapi": "rsa3", sharedKID: "rsa3"}},
 		{ID: "svc", Secret: "svc-secret", AppType: "web", AuthMethod: "client_secret_basic", Service: true,
-			GrantTypes: []string{vkit.GCC, vkit.GBearer}, Keys: map[string]string{"ksvc": "rsa4"}},
+			GrantTypes: []string{vkit.GCC, vkit.GBearer}, Keys: map[string]string{"ksvc": "rsa4", sharedKID: "rsa4"}},
 		// a service client whose access tokens are JWTs: what it is issued is signed with the provider's signing key (sign_test.go)
 		{ID: jwtSvcID, Secret: jwtSvcSecret, AppType: "web", AuthMethod: "client_secret_basic", Service: true, GrantTypes: []string{vkit.GCC}, JWTAccessToken: true},
+		// a web application registered with a key (private_key_jwt); it has a secret as well, as service users with both kinds of credentials do
+		{ID: keyWebID, Secret: keyWebSecret, AppType: "web", AuthMethod: "private_key_jwt", Service: true, Keys: map[string]string{keyWebKID: keyWebKey},
+			GrantTypes:    []string{vkit.GCode, vkit.GRefr, vkit.GDevice, vkit.GCC},
+			ResponseTypes: []string{"code"}, RedirectURIs: []string{rpRedirect}, PostLogoutURIs: []string{rpLogout}},
 	}
 }
 
@@ -441,6 +460,9 @@ func newEnv(c Case) (*env, error) {
 	e.rt.routes[hostOf(issuer)] = route{e.sut.Handler, nil}
 	e.rt.routes["probe.example.com"] = route{http.HandlerFunc(func(w http.ResponseWriter, _ *http.Request) { w.WriteHeader(http.StatusNoContent) }), nil}
 	e.hc = &http.Client{Transport: e.rt, Timeout: 30 * time.Second}
+	e.args = newCallerArgs()
+	e.args0 = e.args.state()
+	e.buildVerifiers()
 	if c.Cold {
 		// only what can be built without a request to the provider
 		e.src, err = profile.NewJWTProfileTokenSource(e.ctx, issuer, "svc", "ksvc", vkit.Key("rsa4").PKCS1PEM(), []string{"openid"},
@@ -452,11 +474,19 @@ func newEnv(c Case) (*env, error) {
 		rp.WithHTTPClient(e.hc), rp.WithPKCE(e.cookie), rp.WithVerifierOpts(rp.WithNonce(nonceFromCtx)), rp.WithSigningAlgsFromDiscovery()); err != nil {
 		return nil, fmt.Errorf("rp: %w", err)
 	}
+	if e.rpKey, err = rp.NewRelyingPartyOIDC(e.ctx, issuer, keyWebID, keyWebSecret, rpRedirect, e.args.scopes[2],
+		rp.WithHTTPClient(e.hc), rp.WithJWTProfile(rp.SignerFromKeyAndKeyID(e.args.webKeyPEM, keyWebKID)), rp.WithSigningAlgsFromDiscovery()); err != nil {
+		return nil, fmt.Errorf("rp with key: %w", err)
+	}
 	// the state generator of the library's own example (a counter shared by the goroutines would synchronise them)
 	var urlParams []rp.URLParamOpt
 	for i := 0; i < c.URLParams && i < 3; i++ {
 		urlParams = append(urlParams, rp.WithURLParam([]string{"login_hint", "ui_locales", "acr_values"}[i], []string{"someone", "en", "x"}[i]))
 	}
+	// the option list of the handlers is the application's (with room behind its length, as a list built by append has)
+	e.args.urlOpts = spare[rp.URLParamOpt](nil, urlParams...)
+	e.args0["arg:url-param-options#0"] = deepState(e.args.urlOpts)
+	urlParams = e.args.urlOpts
 	e.loginH = rp.AuthURLHandler(func() string { return "hst-" + uuid.NewString() }, e.rp, urlParams...)
 	e.cbH = rp.CodeExchangeHandler(rp.UserinfoCallback(func(w http.ResponseWriter, _ *http.Request, tokens *oidc.Tokens[*oidc.IDTokenClaims], state string, _ rp.RelyingParty, info *oidc.UserInfo) {
 		// what this request's callback was given goes back to this request's caller through its own response
@@ -470,7 +500,7 @@ func newEnv(c Case) (*env, error) {
 	if e.rs, err = rs.NewResourceServerClientCredentials(e.ctx, issuer, "api", "api-secret", rs.WithClient(e.hc)); err != nil {
 		return nil, fmt.Errorf("rs: %w", err)
 	}
-	if e.rsJWT, err = rs.NewResourceServerJWTProfile(e.ctx, issuer, "apijwt", "kapi", vkit.Key("rsa3").PKCS1PEM(), rs.WithClient(e.hc)); err != nil {
+	if e.rsJWT, err = rs.NewResourceServerJWTProfile(e.ctx, issuer, "apijwt", "kapi", e.args.apiKeyPEM, rs.WithClient(e.hc)); err != nil {
 		return nil, fmt.Errorf("rs jwt: %w", err)
 	}
 	if e.te, err = tokenexchange.NewTokenExchangerClientCredentials(e.ctx, issuer, "web", "web-secret", tokenexchange.WithHTTPClient(e.hc)); err != nil {
@@ -916,17 +946,39 @@ func (e *env) doOp(o Op, tag string, part int, sync func()) (msg string) {
 		}
 	case "te_exchange":
 		t := pick(e.stable, o.A)
-		resp, err := tokenexchange.ExchangeToken(ctx, e.te, t.IDT, oidc.IDTokenType, "", "", nil, nil, []string{"openid"}, oidc.AccessTokenType)
+		// the lists are literals of the call, or the application's long-lived ones (shared by every goroutine)
+		var resource, audience []string
+		scopes := []string{"openid"}
+		if o.B&1 == 1 {
+			resource, audience, scopes = e.args.resource, e.args.audience, e.args.scopes[0]
+		}
+		sync()
+		resp, err := tokenexchange.ExchangeToken(ctx, e.te, t.IDT, oidc.IDTokenType, "", "", resource, audience, scopes, oidc.AccessTokenType)
 		if err != nil || resp.AccessToken == "" {
 			return fmt.Sprintf("ExchangeToken: %v %+v", err, resp)
 		}
 	case "rp_cc":
-		tok, err := rp.ClientCredentials(ctx, e.rp, nil)
+		// the relying party with a secret or the one registered with a key; endpoint parameters: none, or one of the
+		// application's long-lived parameter objects (shared by both relying parties and every goroutine)
+		r, who := e.rp, "secret"
+		if o.A&1 == 1 {
+			r, who = e.rpKey, "key"
+		}
+		var params url.Values
+		if o.B > 0 {
+			params = e.args.params[(o.B-1)%len(e.args.params)]
+		}
+		sync()
+		tok, err := rp.ClientCredentials(ctx, r, params)
 		if err != nil || tok.AccessToken == "" {
-			return fmt.Sprintf("ClientCredentials: %v", err)
+			return fmt.Sprintf("ClientCredentials on the relying party with a %s, endpoint parameters nil=%v: %v", who, params == nil, err)
 		}
 	case "rp_device":
-		d, err := rp.DeviceAuthorization(ctx, []string{"openid"}, e.rp, nil)
+		scopes := []string{"openid"}
+		if o.B&1 == 1 {
+			scopes = e.args.scopes[o.B>>1&1]
+		}
+		d, err := rp.DeviceAuthorization(ctx, scopes, e.rp, nil)
 		if err != nil || d.DeviceCode == "" {
 			return fmt.Sprintf("DeviceAuthorization: %v", err)
 		}
@@ -945,6 +997,20 @@ func (e *env) doOp(o Op, tag string, part int, sync func()) (msg string) {
 			return fmt.Sprintf("device id token for %s carries %v", user, c)
 		}
 	case "rp_authurl":
+		if o.B&1 == 1 {
+			// the application's long-lived option list, on either relying party
+			r := e.rp
+			if o.A&1 == 1 {
+				r = e.rpKey
+			}
+			sync()
+			u, err := url.Parse(rp.AuthURL("st-"+tag, r, e.args.authOpts...))
+			if err != nil || u.Query().Get("state") != "st-"+tag || u.Query().Get("prompt") != "login" || u.Query().Get("ui_locales") != "de" ||
+				!strings.HasPrefix(u.String(), issuer+defaultPaths["authorization"]) {
+				return fmt.Sprintf("AuthURL with the shared option list: %v %v", err, u)
+			}
+			return ""
+		}
 		u, err := url.Parse(rp.AuthURL("st-"+tag, e.rp, rp.WithCodeChallenge("ch-"+tag), rp.WithPrompt("login")))
 		if err != nil || u.Query().Get("state") != "st-"+tag || u.Query().Get("code_challenge") != "ch-"+tag || u.Query().Get("client_id") != "web" ||
 			!strings.HasPrefix(u.String(), issuer+defaultPaths["authorization"]) {
@@ -1105,6 +1171,18 @@ func (e *env) setup(res *vkit.Result) string {
 				return "volatile token: " + m
 			}
 			e.volatile = append(e.volatile, ts)
+		}
+	}
+	if e.count("at_verify") > 0 {
+		// JWT access tokens of different clients / subjects for the shared access token verifier
+		r := e.drv[0].ag.Token(url.Values{"grant_type": {vkit.GCC}, "scope": {"openid"}}, vkit.Cred{Kind: "basic", ClientID: jwtSvcID, Secret: jwtSvcSecret})
+		if cl := idTokenClaims(r.Str("access_token")); r.Success() && cl != nil {
+			e.jwtATs = append(e.jwtATs, jwtAT{r.Str("access_token"), fmt.Sprint(cl["sub"])})
+		}
+		for _, t := range e.stable {
+			if cl := idTokenClaims(t.AT); cl != nil {
+				e.jwtATs = append(e.jwtATs, jwtAT{t.AT, fmt.Sprint(cl["sub"])})
+			}
 		}
 	}
 	if n := e.count("dead_tok"); n > 0 {
@@ -1363,7 +1441,12 @@ func runConc(c Case) *vkit.Result {
 				if c.Cold && twinNeedsPools(r.op) {
 					continue
 				}
-				if r.op.K == "devauth" || r.op.K == "xdisc" || r.op.K == "xtoken" {
+				if verifierKinds[r.op.K] {
+					res.Label(fmt.Sprintf("shared-verifier:%s/%d", r.op.K, ((r.op.A%n)+n)%n))
+					if r.op.K == "jp_verify" {
+						res.Label(fmt.Sprintf("shared-verifier:jp_verify:keyset=%v", r.op.B&1 == 1))
+					}
+				} else if r.op.K == "devauth" || r.op.K == "xdisc" || r.op.K == "xtoken" {
 					res.Label(fmt.Sprintf("shared-process-request:%s/%d", r.op.K, min(((r.op.A%n)+n)%n, len(e.sides))))
 				} else {
 					res.Label(fmt.Sprintf("error-path:%s/%d", r.op.K, ((r.op.A%n)+n)%n))
@@ -1397,6 +1480,12 @@ func runConc(c Case) *vkit.Result {
 					res.Grey = true
 				}
 				continue
+			}
+			switch r.op.K {
+			case "rp_cc":
+				res.Label(fmt.Sprintf("caller-args:rp_cc:rp-with-key=%v:shared-params=%v", r.op.A&1 == 1, r.op.B > 0))
+			case "te_exchange", "rp_device", "rp_authurl":
+				res.Label(fmt.Sprintf("caller-args:%s:shared-lists=%v", r.op.K, r.op.B&1 == 1))
 			}
 			if r.msg == "" {
 				if info.det {
@@ -1463,6 +1552,10 @@ func runConc(c Case) *vkit.Result {
 	for _, name := range globals0.diff(globals1) {
 		res.Fail("C20:state-changed:"+rootOf(name)+":concurrent-case", "%s: %s -> %s (between the start of the case and the end of its concurrent phase)", name, globals0[name], globals1[name])
 	}
+	// the application's long-lived argument objects hold what they held before they were handed to the helpers
+	for _, name := range e.args0.diff(e.args.state()) {
+		res.Fail("C20:state-changed:"+argRoot(name)+":concurrent-case", "caller-supplied argument %s: %s -> %s (between the start of the case and the end of its concurrent phase; it was handed to the helpers by %d goroutines)", name, e.args0[name], e.args.state()[name], len(c.Progs))
+	}
 	for _, name := range e.owned0.diff(owned1) {
 		root := name
 		if i := strings.Index(name, "-of-"); i > 0 {
@@ -1509,7 +1602,7 @@ func run(c Case) *vkit.Result {
 	return res
 }
 
-const rule = "conc: G in 2..8 goroutines x 2..15 ops (46 kinds: authorize/login/callback/token of every grant, userinfo, introspection, revocation, end-session, device polls " +
+const rule = "conc: G in 2..8 goroutines x 2..15 ops (49 kinds: authorize/login/callback/token of every grant, userinfo, introspection, revocation, end-session, device polls " +
 	"of one shared device code, discovery, keys directly on ONE provider (both routers); requests that end in each error path (callback before login with the request's own state, " +
 	"unknown callback id, authorize refusals with and without redirect: prompt / scope / response type / id_token_hint / unknown client / unregistered redirect URI, wrong or foreign code, " +
 	"wrong PKCE verifier, wrong redirect_uri, unknown refresh token / device code, missing grant type, malformed basic auth, wrong secrets at token / introspection / revocation / " +
@@ -1517,6 +1610,10 @@ const rule = "conc: G in 2..8 goroutines x 2..15 ops (46 kinds: authorize/login/
 	"gets when run alone afterwards (twin run: status, redirect target, every delivered parameter, body); CodeExchange, Userinfo, RefreshTokens, EndSession, RevokeToken, VerifyTokens, " +
 	"ClientCredentials, device calls, ONE AuthURLHandler and ONE CodeExchangeHandler(UserinfoCallback), rs.Introspect (secret and JWT profile), ExchangeToken, remote key set, JWT-profile token source, " +
 	"Discover through a redirect on ONE RP / RS / exchanger / key set / token source over ONE caller-supplied http.Client, in-process transport) in the -race binary; " +
+	"shared verifier objects: ONE op.JWTProfileVerifier (storage-backed and key-set-backed), ONE op.AccessTokenVerifier, ONE op.IDTokenHintVerifier verify assertions of different clients " +
+	"(8 variants: two clients, own and shared key IDs, honest and signed with the other client's key, unknown client) and tokens of different subjects / forged ones from all goroutines (twin run: accepted for the same client / subject or refused, as alone; cold cases use the verifier for the first time under concurrency); " +
+	"caller-supplied arguments: ONE pool of long-lived argument objects per case (2 url.Values endpoint parameters, 3 scope lists and resource / audience lists with spare capacity, AuthURL option list, key bytes, request structs) is handed by every goroutine to " +
+	"rp.ClientCredentials (on the RP with a secret + PKCE and on a second RP registered with a key = rp.WithJWTProfile, params nil or shared), ExchangeToken, DeviceAuthorization, AuthURL; deep rendering (maps sorted, slices up to capacity) compared before / after the case; " +
 	"free or lock-step schedule, warm or cold (nothing touches the provider before the goroutines start), independent or identical programs, issuer static / from Host / from Forwarded-or-Host (then discovery is asked under several host names / Forwarded hosts at once); " +
 	"the shared provider's op.Config is generated (each of CodeMethodS256 / AuthMethodPost / AuthMethodPrivateKeyJWT / GrantTypeRefreshToken / RequestObjectSupported / back-channel flags on or off, SupportedScopes / " +
 	"SupportedClaims / SupportedUILocales caller-supplied or defaulted, device authorization with the deprecated UserFormURL (two URLs, so providers collide on one) or a UserFormPath, 4 lifetimes, 3 poll intervals, 5 user-code shapes) " +
@@ -1525,7 +1622,9 @@ const rule = "conc: G in 2..8 goroutines x 2..15 ops (46 kinds: authorize/login/
 	"issued to another request, one provider answers all alike up to the answer's own codes; package-level default lists (by value) and every Config with its slices are compared before / after the case; " +
 	"order: 2..12 steps of constructing providers (op.Config generated per provider as above - provider 0 and the closing provider have the all-on, all-defaulted one -, 8 endpoint options, bulk option, both routers, issuer strategy StaticIssuer / IssuerFromHost / IssuerFromForwardedOrHost without and with " +
 	"WithIssuerFromCustomHeaders(1..2 names of 6 spellings), wrapper constructors, default / caller-supplied / no CORS options), issuer functions on their own (the same strategies, path, allowInsecure), " +
-	"RPs (OIDC / OAuth), resource servers, token exchangers with the package default or a shared caller-supplied http.Client, and calls on them, with a deep snapshot (package-level defaults, supplied clients, " +
+	"RPs (OIDC / OAuth; registered with a secret, with a key and a secret = rp.WithJWTProfile, or public; with / without PKCE cookie handler), resource servers, token exchangers with the package default or a shared caller-supplied http.Client, and calls on them " +
+	"(EndSession, RevokeToken, Userinfo, CodeExchange with option list, Introspect, ExchangeToken, ClientCredentials with nil / shared endpoint parameters, AuthURL with the shared option list, DeviceAuthorization, RefreshTokens, client.Call{Revoke,EndSession,DeviceAuthorization,Token}Endpoint with long-lived request structs by pointer, " +
+	"profile.NewJWTProfileTokenSource with the shared key bytes and scope list, httphelper.FormRequest / HttpRequest / URLEncodeParams; every reference-typed argument comes from the case's pool of long-lived objects or is entered into the snapshot when handed over: option lists of NewProvider / NewRelyingPartyOIDC, *op.Endpoint values, cookie handlers), with a deep snapshot (package-level defaults, supplied clients, " +
 	"op.Config and its scope / claim / locale slices by value, cors.Options, header lists) and a behaviour re-probe of every live instance after every step: discovery document, 1..2 device authorization requests (answered as right after construction up to " +
 	"the answer's own codes, no code of any other request of the case), key set, a bad token request, routed paths, issuer for 9 requests carrying Host / Forwarded / " +
 	"X-Forwarded-Host / other headers (two reference issuer functions with default options are built before anything else), CORS answers, key set, answers to fixed bad requests, what RPs / RSs / exchangers " +
